@@ -15,18 +15,20 @@ import (
 	"runtime/debug"
 	"sort"
 	"strings"
+	"unsafe"
 )
 
 // G is one simulated goroutine.
 type G struct {
-	id      int
-	name    string // spawn path, e.g. "0.2.1"
-	wake    chan struct{}
-	nchild  int
-	blocked bool
-	reason  string
-	done    bool
-	prio    int // PCT priority
+	id        int
+	name      string // spawn path, e.g. "0.2.1"
+	wake      chan struct{}
+	nchild    int
+	blocked   bool
+	reason    string
+	done      bool
+	prio      int // PCT priority
+	parkUntil uint64
 }
 
 // Plan is everything that decides one simulated compile.
@@ -80,6 +82,8 @@ type sim struct {
 	maprng   rng
 	finerng  rng
 	curOp    string
+	parked   []*G                   // stalled inside a read-modify-write window until parkUntil
+	rmwOwner map[unsafe.Pointer]int // location -> goroutine id that updated it, -1: several (the pointers keep the objects alive: no address is reused within a run)
 	curMut   bool
 	tapePos  int
 	stats    Stats
@@ -257,8 +261,26 @@ func Point(op string, mut bool) {
 	s.point(op, mut)
 }
 
+// unparkDue makes stalled goroutines runnable again once their time is up (or
+// at once when nothing else can run).
+func (m *sim) unparkDue(force bool) {
+	if len(m.parked) == 0 {
+		return
+	}
+	keep := m.parked[:0]
+	for _, g := range m.parked {
+		if force || m.stats.Steps >= g.parkUntil {
+			m.addRunnable(g)
+		} else {
+			keep = append(keep, g)
+		}
+	}
+	m.parked = keep
+}
+
 func (m *sim) point(op string, mut bool) {
 	m.stats.Steps++
+	m.unparkDue(false)
 	if m.stats.Steps > m.plan.MaxSteps {
 		m.die("hang", fmt.Sprintf("step budget of %d scheduling points exceeded", m.plan.MaxSteps), "")
 	}
@@ -407,6 +429,9 @@ func (m *sim) block(reason string) {
 	g.blocked = true
 	g.reason = reason
 	if len(m.runnable) == 0 {
+		m.unparkDue(true)
+	}
+	if len(m.runnable) == 0 {
 		m.deadlock()
 	}
 	m.curOp, m.curMut = "block", false
@@ -502,6 +527,9 @@ func (m *sim) exitCurrent() {
 	g.done = true
 	m.nlive--
 	if len(m.runnable) == 0 {
+		m.unparkDue(true)
+	}
+	if len(m.runnable) == 0 {
 		// nobody runnable: everything else is blocked (goroutine 0 included)
 		m.deadlock()
 	}
@@ -540,6 +568,70 @@ func ySlow() {
 		return
 	}
 	s.point("y", false)
+}
+
+// YW is the yield the rewriter puts INSIDE a split read-modify-write
+// (`t := x.f; YW(&x.f); x.f = append(t, v)`). In fine mode, when the updated
+// location has been updated by more than one goroutine during this run, it
+// sometimes stalls the goroutine right there while the others run on - the
+// schedule under which an unprotected update is lost. Locations touched by
+// one goroutine only (parser state, builders) never stall.
+func YW[T any](p *T) {
+	if s.active {
+		ywSlow(unsafe.Pointer(p))
+	}
+}
+
+// YW0 is YW for locations whose address cannot be taken (map elements).
+func YW0() {
+	if s.active {
+		ywSlow(nil)
+	}
+}
+
+func ywSlow(addr unsafe.Pointer) {
+	s.stats.YCalls++
+	if s.stats.YCalls > s.plan.MaxY {
+		s.die("hang", fmt.Sprintf("statement budget of %d exceeded", s.plan.MaxY), string(debug.Stack()))
+	}
+	if !s.plan.Fine || s.nlive < 2 {
+		return
+	}
+	shared := false
+	if addr != nil {
+		if s.rmwOwner == nil {
+			s.rmwOwner = map[unsafe.Pointer]int{}
+		}
+		owner, seen := s.rmwOwner[addr]
+		switch {
+		case !seen:
+			s.rmwOwner[addr] = s.cur.id
+		case owner == -1:
+			shared = true
+		case owner != s.cur.id:
+			s.rmwOwner[addr] = -1
+			shared = true
+			s.stats.Probes["rmw-location-shared-by-goroutines"]++
+		}
+	}
+	if shared && len(s.runnable) > 0 && s.finerng.intn(2) == 0 {
+		g := s.cur
+		// half of the stalls are short, the other half last until nobody else can run
+		if s.finerng.intn(2) == 0 {
+			g.parkUntil = s.stats.Steps + 20 + uint64(s.finerng.intn(4000))
+		} else {
+			g.parkUntil = ^uint64(0)
+		}
+		s.stats.Probes["window-stall"]++
+		s.stats.Steps++
+		s.trace.add(g.name, "stall", "")
+		s.parked = append(s.parked, g)
+		s.curOp, s.curMut = "stall", false
+		idx := s.choose(len(s.runnable), false)
+		s.switchTo(s.runnable[idx], false)
+		return
+	}
+	s.point("yw", false)
 }
 
 // ExitPanic is raised by OsExit so that the harness can observe exit codes.
